@@ -105,6 +105,7 @@ const (
 	LoopMapRange            // range over a map
 	LoopWorklist            // while len(W) > 0 with W a loop-carried slice
 	LoopStringRange
+	LoopAscendingFrom // idx from a constant k > 0 by +1 while idx < bound (skips the first k elements on purpose)
 )
 
 // Induction describes a recognised counted loop.
@@ -115,6 +116,7 @@ type Induction struct {
 	Bound ssa.Value // len(...) operand or bound value (ascending); start expression (descending)
 	Cond  *ssa.If
 	Range *ssa.Range
+	Start int64 // LoopAscendingFrom: the first index
 }
 
 func lenOf(v ssa.Value) (ssa.Value, bool) {
@@ -226,6 +228,10 @@ func Classify(l *Loop) *Induction {
 		// rangeindex form: start -1 and index is p+1; for form: start 0 and index is p
 		if (s == -1 && idx != ssa.Value(p)) || (s == 0 && idx == ssa.Value(p)) {
 			return &Induction{Kind: LoopAscending, Phi: p, Index: idx, Bound: cond.Y, Cond: ifi}
+		}
+		// counted loop from a later position (for i := k; i < bound; i++)
+		if s > 0 && idx == ssa.Value(p) {
+			return &Induction{Kind: LoopAscendingFrom, Phi: p, Index: idx, Bound: cond.Y, Cond: ifi, Start: s}
 		}
 	case token.GEQ:
 		if !trueInLoop {
